@@ -246,9 +246,14 @@ func forgeries(c h.Cfg, r *rand.Rand, other *h.KeyPair) []forgery {
 	pick := func(items []rawItem) int { return r.Intn(len(items)) }
 	mk := func(kind, what string, edit func(signed *tar.Header) bool) forgery {
 		return forgery{kind, what, func(items []rawItem) ([]rawItem, int, bool) {
-			k := pick(items)
-			out, ok := withSigned(c, items, k, edit)
-			return out, k, ok
+			k0 := pick(items)
+			for d := 0; d < len(items); d++ {
+				k := (k0 + d) % len(items)
+				if out, ok := withSigned(c, items, k, edit); ok {
+					return out, k, true
+				}
+			}
+			return nil, 0, false
 		}}
 	}
 	garbagePacket := base64.StdEncoding.EncodeToString([]byte("this is not an OpenPGP packet nor a minisign signature"))
@@ -330,6 +335,16 @@ func forgeries(c h.Cfg, r *rand.Rand, other *h.KeyPair) []forgery {
 		mk("outerExtras", "outer records STFS.Action=DELETE added around an untouched signed header", func(s *tar.Header) bool {
 			s.PAXRecords["STFS.Version"] = "1"
 			s.PAXRecords["STFS.Action"] = "DELETE"
+			return true
+		}),
+		mk("outerExtras", "outer record STFS.ReplacesName added around an untouched signed header that has none", func(s *tar.Header) bool {
+			e := s.PAXRecords[recEmbedded]
+			// only where the signed header has PAX records of its own but no ReplacesName: a
+			// verifier that merges instead of replacing would let the outer record through
+			if !strings.Contains(e, `"STFS.Action":"UPDATE"`) || strings.Contains(e, "STFS.ReplacesName") {
+				return false
+			}
+			s.PAXRecords["STFS.ReplacesName"] = "/"
 			return true
 		}),
 		{"swapped", "signatures of two records swapped", func(items []rawItem) ([]rawItem, int, bool) {
